@@ -4,5 +4,6 @@ CONSTANTS
   BlockInverted = FALSE
   CaseSensitive = FALSE
   StripOnValidate = TRUE
+  MappedByPrefix = FALSE
 SPECIFICATION Spec
 CHECK_DEADLOCK FALSE
